@@ -770,6 +770,15 @@ def c06_r6(ctx: Ctx, rule):
                 res.fail(rule.id, "provn-scope::prefix-lines-filtered", ctx.loc(bq, n),
                          "the `prefix` declarations of a bundle are printed from a filtered / re-assigned list of namespaces",
                          "document ex->A, nested bundle ex->B: the bundle's own `prefix ex <B>` line is dropped, every ex: name in it resolves to A")
+    # rendered text is never re-split by lines (a multi-line string value contains newlines of its own)
+    for q2 in ctx.helper_closure(bq):
+        for c in calls_in(ctx.fn(q2).node):
+            if call_name(c) in ("splitlines", "indent") or (call_name(c) == "split" and c.args and isinstance(c.args[0], ast.Constant) and c.args[0].value == "\n"):
+                recv = norm(c.func.value) if isinstance(c.func, ast.Attribute) else ""
+                if "get_provn" in recv or "provn" in recv.lower() or call_name(c) == "indent":
+                    res.ob("%s re-splits rendered PROV-N text: %s" % (q2.rsplit(".", 1)[1], norm(c)[:60]))
+                    res.fail(rule.id, "provn-resplit::%s" % norm(c)[:50], ctx.loc(q2, c), "rendered PROV-N text is split into lines again (`%s`) to indent it" % norm(c)[:60],
+                             "a multi-line string value inside a bundle gains the indentation on its continuation lines; \\r, \\x0b ... inside strings become \\n")
     # the bundle printer declares its own default and registered namespaces
     reads = scope_reads(ctx, bq)
     kinds = {w for w, root, n in reads if root == "self"}
